@@ -10,10 +10,12 @@ coq:
 	cd coq && timeout 3000 $(MAKE) -f Makefile.coq -j$(COQJOBS) --no-print-directory
 
 driver: coq
+	@$(MAKE) --no-print-directory $(BUILD)/driver
+
+$(BUILD)/driver: coq/model.ml $(wildcard ocaml/*.ml)
 	mkdir -p $(BUILD)/ocaml
-	cp coq/model.ml coq/model.mli ocaml/driver.ml $(BUILD)/ocaml/
-	cd $(BUILD)/ocaml && ocamlfind ocamlopt -O3 -w -a -package str model.mli model.ml driver.ml -o ../driver 2>/dev/null || \
-	  (cd $(BUILD)/ocaml && ocamlfind ocamlopt -w -a model.mli model.ml driver.ml -o ../driver)
+	cp coq/model.ml coq/model.mli ocaml/*.ml $(BUILD)/ocaml/
+	cd $(BUILD)/ocaml && ocamlfind ocamlopt -w -a model.mli model.ml drv_core.ml $(sort $(notdir $(wildcard ocaml/cmd_*.ml))) driver.ml -o ../driver
 
 clean:
 	-cd coq && [ -f Makefile.coq ] && $(MAKE) -f Makefile.coq clean
